@@ -103,7 +103,8 @@ Cat ==
   ("bind_suffix_not_a_name"     :> M(Q, "survey", FALSE, "ident")) @@
   ("bind_suffix_undeclared_prefix" :> M(Q, "survey", FALSE, "ident")) @@
   ("settings_attribute_not_a_name" :> M({}, "form", FALSE, "ident")) @@
-  ("label_with_control_character"  :> M(Visible, "survey", FALSE, "kind"))
+  ("label_with_control_character"  :> M(Visible, "survey", FALSE, "kind")) @@
+  ("bg_geopoint_ambiguous_trigger" :> M({}, "form", FALSE, "ident"))
 Muts == DOMAIN Cat
 
 \* an end row qualifies as top-level when it closes a top-level section (depth 1 in front of it)
